@@ -132,6 +132,11 @@ Tr_C08_begin(A, B) ==
          /\ Card(A.cl.avail) >= SumOver(bg, LAMBDA o : OCfg(o).ing)
          /\ Card(A.cl.ingest) + SumOver(bg, LAMBDA o : OCfg(o).ing) <= cfg.maxIngest
          /\ \A o \in bg : A.buf.hotFree >= ObsVol(o) /\ A.buf.coldFree >= ObsVol(o)
+(* the telescope's array count is the demand of the observations that have begun *)
+(* and are not finished                                                          *)
+Inv_C08_arrays(X) ==
+    cfg.api \/ X.tel.use = SumOver({o \in ObsNames : X.obs[o].ast # NoneT /\ X.obs[o].status # "FINISHED"},
+                                   LAMBDA o : OCfg(o).demand)
 Inv_C08_limits(X) ==
     /\ X.tel.use <= cfg.arrays /\ X.tel.use >= 0
     /\ Card(X.cl.ingest) <= cfg.maxIngest
@@ -220,6 +225,8 @@ Inv_C15_reported(X) ==
 Tr_C17_planned(A, B) ==
     cfg.alg = "plan" =>
       /\ \A p \in NewClaims(A, B) : p[3] > 0 => B.procs[p].m = cfg.plan[TaskOf(p)].m
+      (* ... and the work itself starts on that machine *)
+      /\ \A p \in LivePids(B, "WK") \ DOMAIN A.procs : p[3] > 0 => B.procs[p].m = cfg.plan[TaskOf(p)].m
       /\ \A t \in DOMAIN A.tasks : (t \in DOMAIN B.tasks /\ A.tasks[t].m # NoM) => B.tasks[t].m = A.tasks[t].m
 
 (* ------------------------------- C18 ------------------------------------ *)
@@ -257,7 +264,8 @@ Inv_C18_nomove_raises(X) == ~\E e \in SeqToSet(X.queue) : e.pid[1] = "CRASH" /\ 
 (* q: the five query results as the implementation (or the spec) gave them *)
 Truth_C19(X, q) ==
     /\ q.cluIdle => (X.cl.running = {} /\ X.cl.ingest = {} /\ X.cl.occ = {})
-    /\ q.bufEmpty => (X.buf.hotFree = cfg.hotCap /\ X.buf.coldFree = cfg.coldCap)
+    /\ q.bufEmpty => (X.buf.hotFree = cfg.hotCap /\ X.buf.coldFree = cfg.coldCap
+                       /\ \A o \in ObsNames \ X.buf.hotFin : X.obs[o].data = 0)   \* nothing resident
     /\ q.schIdle => X.sch.queue = {}
     /\ q.telIdle => ((\A o \in ObsNames : X.obs[o].status = "FINISHED") /\ X.tel.use = 0)
     /\ q.fin <=> (q.cluIdle /\ q.bufEmpty /\ q.schIdle /\ q.telIdle)
@@ -332,14 +340,15 @@ End_C13_times(log, X) ==
 
 (* ------------------------ bundles used by the checks --------------------- *)
 InvNames == <<"C01.exec", "C01.claim", "C01.pool", "C02.partition", "C02.counts", "C02.numprov",
-              "C07.bounds", "C07.conserved", "C08.limits", "C09.count", "C09.counter", "C15.reported">>
+              "C07.bounds", "C07.conserved", "C08.limits", "C08.arrays", "C09.count", "C09.counter", "C15.reported">>
 InvHolds(X, n) ==
     CASE n = "C01.exec" -> Inv_C01_exec(X) [] n = "C01.claim" -> Inv_C01_claim(X)
       [] n = "C01.pool" -> Inv_C01_pool(X)
       [] n = "C02.partition" -> Inv_C02_partition(X) [] n = "C02.counts" -> Inv_C02_counts(X)
       [] n = "C02.numprov" -> Inv_C02_numprov(X)
       [] n = "C07.bounds" -> Inv_C07_bounds(X) [] n = "C07.conserved" -> Inv_C07_conserved(X)
-      [] n = "C08.limits" -> Inv_C08_limits(X) [] n = "C09.count" -> Inv_C09_count(X)
+      [] n = "C08.limits" -> Inv_C08_limits(X) [] n = "C08.arrays" -> Inv_C08_arrays(X)
+      [] n = "C09.count" -> Inv_C09_count(X)
       [] n = "C09.counter" -> Inv_C09_counter(X)
       [] n = "C15.reported" -> Inv_C15_reported(X)
 TrNames == <<"C01.noreclaim", "C02.boundary", "C03.precedence", "C03.exact", "C04.once",
